@@ -95,8 +95,21 @@ func Harness_C14_logs() {
 		logs = append(logs, l)
 	}
 	data, ok := writeTable(cfg, 0, 200, refs, logs)
-	VerifAssert(ok, "writer-accepts")
 	if !ok {
+		// the only legitimate refusal here: a message that is not a single line, when exact messages were not asked for
+		multi := false
+		for _, l := range logs {
+			m := l.Message
+			for len(m) > 0 && m[len(m)-1] == '\n' {
+				m = m[:len(m)-1]
+			}
+			for k := 0; k < len(m); k++ {
+				if m[k] == '\n' {
+					multi = true
+				}
+			}
+		}
+		VerifAssert(multi && !cfg.ExactLogMessage, "writer-accepts")
 		return
 	}
 	specCompare(data, cfg, refs, logs)
